@@ -186,3 +186,70 @@ def any_of(*deciders) -> Callable[[ast.AST], Optional[bool]]:
                 return r
         return None
     return decide
+
+
+# ------------------------------------------------------------------ facts from guards
+def atomic_facts(t: ast.AST, outcome: bool) -> List[Tuple[ast.AST, bool]]:
+    """Atomic conditions implied by test t having the given outcome."""
+    if isinstance(t, ast.UnaryOp) and isinstance(t.op, ast.Not):
+        return atomic_facts(t.operand, not outcome)
+    if isinstance(t, ast.BoolOp):
+        if isinstance(t.op, ast.And) and outcome:
+            return [f for v in t.values for f in atomic_facts(v, True)]
+        if isinstance(t.op, ast.Or) and not outcome:
+            return [f for v in t.values for f in atomic_facts(v, False)]
+        return []
+    return [(t, outcome)]
+
+
+_ORDERINGS = {ast.Lt: {"lt"}, ast.LtE: {"lt", "eq"}, ast.Gt: {"gt"}, ast.GtE: {"gt", "eq"},
+              ast.Eq: {"eq"}, ast.NotEq: {"lt", "gt"}}
+
+
+def _orderings(e: ast.AST, a: str, b: str) -> Optional[Set[str]]:
+    """Set of orderings of (a, b) that satisfy comparison e, if e compares exactly a and b."""
+    if not (isinstance(e, ast.Compare) and len(e.ops) == 1 and type(e.ops[0]) in _ORDERINGS):
+        return None
+    l_, r_ = norm(e.left), norm(e.comparators[0])
+    sat = set(_ORDERINGS[type(e.ops[0])])
+    if (l_, r_) == (a, b):
+        return sat
+    if (l_, r_) == (b, a):
+        return {{"lt": "gt", "gt": "lt", "eq": "eq"}[x] for x in sat}
+    return None
+
+
+def fact_decider(du: DefUse, facts: List[Tuple[ast.AST, bool]], at: int):
+    """Decide branch tests from conditions known to hold at node `at` (same normalised
+    expression, its negation, or an order comparison of the same two operands), as long as
+    every name in the condition still has the definitions it had at `at`."""
+    def same_versions(f: ast.AST, nid: int) -> bool:
+        for x in ast.walk(f):
+            if isinstance(x, ast.Name) and isinstance(x.ctx, ast.Load):
+                if {d.id for d in du.reaching(nid, x.id)} != {d.id for d in du.reaching(at, x.id)}:
+                    return False
+        return True
+
+    def decide(nid: int, e: ast.AST) -> Optional[bool]:
+        for (f, tv) in facts:
+            if not same_versions(f, nid):
+                continue
+            if norm(e) == norm(f):
+                return tv
+            if isinstance(f, ast.Compare) and len(f.ops) == 1 and isinstance(e, ast.Compare):
+                a, b = norm(f.left), norm(f.comparators[0])
+                if isinstance(f.ops[0], (ast.Is, ast.IsNot)) and len(e.ops) == 1 and \
+                        isinstance(e.ops[0], (ast.Is, ast.IsNot)) and \
+                        (norm(e.left), norm(e.comparators[0])) == (a, b):
+                    same = type(e.ops[0]) is type(f.ops[0])
+                    return tv if same else (not tv)
+                known = _orderings(f, a, b)
+                asked = _orderings(e, a, b)
+                if known is not None and asked is not None:
+                    possible = known if tv else ({"lt", "eq", "gt"} - known)
+                    if possible <= asked:
+                        return True
+                    if not (possible & asked):
+                        return False
+        return None
+    return decide
